@@ -173,6 +173,8 @@ def run(ctx):
                     if min(others) > 1e3 * ref["tol"]:
                         chosen = a
                 ctx.maxi("dev_over_tol", ratio)
+                if ll[r] == ref.get("emul"):
+                    ctx.count("bit_identical_to_emulation_of_declared_algorithm")
                 if ns == 1:
                     ctx.maxi("dev_over_tol_single_survey", ratio)
                 ctx.maxi("abs_dev", dev)
